@@ -134,16 +134,16 @@ func (v *vf36Vals) idOf(p *ClientSessionState) int {
 // ---- sequential runner ----
 
 type vf36Run struct {
-	st       *vfStats
-	t        vfFataler
-	capacity int
-	cache    ClientSessionCache
-	vals     *vf36Vals
-	spec     *vf36Model
-	dev      *vf36Model // reference + the deviating rule
-	tainted  bool       // history contains Put(k,nil) with k absent (in the deviation model == the real cache if the defect exists)
-	hist     []string
-	knownHit bool
+	st                                                      *vfStats
+	t                                                       vfFataler
+	capacity                                                int
+	cache                                                   ClientSessionCache
+	vals                                                    *vf36Vals
+	spec                                                    *vf36Model
+	dev                                                     *vf36Model // reference + the deviating rule
+	tainted                                                 bool       // history contains Put(k,nil) with k absent (in the deviation model == the real cache if the defect exists)
+	hist                                                    []string
+	knownHit                                                bool
 	nilPresent, nilAbsent, evicts, hits, misses, overwrites int
 }
 
